@@ -12,6 +12,8 @@ import glob, json, os, shutil, subprocess, sys, tempfile, time
 
 VERIF = os.path.dirname(os.path.dirname(os.path.abspath(__file__)))
 ENV = dict(os.environ, GOFLAGS="-mod=mod", GOPROXY="off", GOSUMDB="off", GOTOOLCHAIN="local")
+# development aid: run the checks of a frozen copy of /verif (so that the harness can be edited meanwhile); results are still written here
+CHECK_DIR = os.environ.get("VERIF_CHECK_DIR", VERIF)
 ALL = [f"C{n:02d}" for n in range(1, 19)]
 
 
@@ -70,7 +72,7 @@ def main():
                     if not inplace:
                         env["VERIF_REPO_OVERRIDE"] = repo
                     t0 = time.time()
-                    rc, out = sh([os.path.join(VERIF, "check"), p, "quick"], cwd=VERIF, env=env)
+                    rc, out = sh([os.path.join(CHECK_DIR, "check"), p, "quick"], cwd=CHECK_DIR, env=env)
                     verdicts[p] = {0: "missed", 1: "CAUGHT", 2: "inconclusive"}.get(rc, str(rc))
                     if rc == 1:
                         v = [l for l in out.splitlines() if "check=" in l or l.startswith("VIOLATION")]
